@@ -3,7 +3,8 @@
 (* what the harness logs for one run of the real tokenizer is                   *)
 (*   toks  [t, v, l] per tok() call (l = line_num after the call), continued    *)
 (*         for two more calls after the first EOF                               *)
-(*   err   [id, arg, l]  (id "none": no exception)                              *)
+(*   err   [id, arg, l]  id "none": no exception; "error": the typed syntax      *)
+(*         error; "exception": anything else.  l = its line_num                 *)
 (*   etype name of the exception type ("" if none)                              *)
 (*   n     cursor reads (_next_char calls) up to the first EOF / the error      *)
 EXTENDS TokenizerOps
@@ -14,15 +15,27 @@ FoldFn(pairs) == [c \in {pairs[i][1] : i \in 1..Len(pairs)} |->
 FoldTableOK(pairs) == \A i \in 1..Len(pairs) : pairs[i][1] > 127
 CfOf(r) == [o |-> r.o, fold |-> FoldFn(r.fold)]
 
-\* What a caller must observe for this text: Lex, then EOF for ever (two more calls are logged).
+\* What the specification fixes about a run: the tokens (Lex, then EOF for ever: two more calls
+\* are logged) and WHETHER it ends in an error.  The wording, file and line of an error are not
+\* prescribed here - the property only demands that they are the same for every delivery form,
+\* which the validators decide by comparing the logged observations with each other.
+ErrKind(e) == IF e.id = "none" THEN "none" ELSE "error"
 Observed(L) ==
     IF L.err = NoErrL
-    THEN [toks |-> L.toks \o <<L.toks[Len(L.toks)], L.toks[Len(L.toks)]>>, err |-> L.err, n |-> L.n]
-    ELSE [toks |-> L.toks, err |-> L.err, n |-> L.n]
+    THEN [toks |-> L.toks \o <<L.toks[Len(L.toks)], L.toks[Len(L.toks)]>>, errk |-> "none", n |-> L.n]
+    ELSE [toks |-> L.toks, errk |-> "error", n |-> L.n]
 Expected(text, cf) == Observed(Lex(text, cf))
 \* out = one logged run; etype = the exception type the tokenizer was told to raise
 Agrees(out, exp, etype) ==
     /\ out.toks = exp.toks
-    /\ out.err = exp.err
-    /\ out.etype = IF exp.err.id = "none" THEN "" ELSE etype
+    /\ out.err.id = exp.errk
+    /\ out.etype = IF exp.errk = "none" THEN "" ELSE etype
+\* the same without line numbers (C02 states token types and values only)
+TV(toks) == [k \in 1..Len(toks) |-> [t |-> toks[k].t, v |-> toks[k].v]]
+AgreesTV(out, exp, etype) ==
+    /\ TV(out.toks) = TV(exp.toks)
+    /\ out.err.id = exp.errk
+    /\ out.etype = IF exp.errk = "none" THEN "" ELSE etype
+\* "a number of steps linear in the input length": the constant the harness enforces on cursor reads
+LinearBound(n) == 4 * (n + 2) + 16
 =============================================================================
